@@ -240,6 +240,7 @@ package core
 //@   label W at call RingBuffer.Write#0
 //@   assume at call RingBuffer.Write#0 :: elastic.ewf(c.inboundBuffer) && (c.inboundBuffer.rb == nil || c.buffer.base != c.inboundBuffer.rb.buf.base)
 //@   ensures[leftover@C08] reached(W) ==> (elastic.elen(c.inboundBuffer) == atlabel(W, slen(c)) && (forall k int :: (0 <= k && k < elastic.elen(c.inboundBuffer)) ==> elastic.eat(c.inboundBuffer, k) == atlabel(W, sat(c, k))))
+//@   ensures[tail.kept@C08] (result == nil && c.opened) ==> reached(W)
 //@   assume at call listenServer.OnCReact#0 :: server.crok(el.eventHandler, r, c)
 //@   assert[order@C01] at call conn.write#0 :: cl(c).count == 0
 //@   loop 0
